@@ -77,3 +77,96 @@ def _py_dtwcnd(ex, st, s1, l1, s2, l2, ndim, settings):
 from dvc.contracts import SPECS
 SPECS['DTWC'].py = _py_dtwc
 SPECS['DTWCnd'].py = _py_dtwcnd
+
+
+# ---------------------------------------------------------------------------------------------
+# Python side: DTWP(s1, s2, only_ub, options) is *the value dtw.distance returns* for the given
+# series contents and keyword options (an uninterpreted function; its meaning is C01's contract).
+from dvc.vals import Opt, is_int, is_val, is_bool, FuncV
+from dvc.ops import truth, b_not
+from dvc.state import Unsupported
+
+OPTION_KEYS = ['window', 'use_pruning', 'max_dist', 'max_step', 'max_length_diff', 'penalty', 'psi',
+               'inner_dist', 'use_ndim', 'use_c']
+OPTION_DEFAULTS = dict(window=None, use_pruning=False, max_dist=None, max_step=None, max_length_diff=None,
+                       penalty=None, psi=None, inner_dist='squared euclidean', use_ndim=False, use_c=False)
+INNER_CODES = {'squared euclidean': 0, 'euclidean': 1}
+
+
+def encode_option(key, v):
+    """Canonical z3 encoding of an option value: list of terms."""
+    if key in ('window', 'max_length_diff'):
+        if isinstance(v, Opt):
+            return [zbool(v.isnone), zint(v.v)]
+        return [z3.BoolVal(v is None), zint(0 if v is None else v)]
+    if key in ('max_dist', 'max_step', 'penalty'):
+        if isinstance(v, Opt):
+            return [zbool(v.isnone), vlit(v.v)]
+        return [z3.BoolVal(v is None), vlit(0.0 if v is None else v)]
+    if key in ('use_pruning', 'use_ndim', 'use_c'):
+        return [zbool(truth(v))]
+    if key == 'inner_dist':
+        if isinstance(v, str):
+            if v not in INNER_CODES:
+                raise Unsupported('inner_dist %r' % v)
+            return [z3.IntVal(INNER_CODES[v])]
+        if is_int(v):
+            return [zint(v)]
+        raise Unsupported('inner_dist value %r' % (v,))
+    if key == 'psi':
+        if v is None:
+            return [z3.IntVal(0)] + [z3.IntVal(0)] * 4
+        if isinstance(v, Opt):
+            return [z3.If(zbool(v.isnone), 0, 1)] + [z3.If(zbool(v.isnone), 0, zint(v.v))] * 4
+        if is_int(v):
+            return [z3.IntVal(1)] + [zint(v)] * 4
+        if isinstance(v, tuple) and len(v) == 4:
+            return [z3.IntVal(2)] + [zint(x) for x in v]
+        raise Unsupported('psi value %r' % (v,))
+    raise Unsupported('option %s' % key)
+
+
+_OPT_SORTS = []
+for _k in OPTION_KEYS:
+    _OPT_SORTS += [t.sort() for t in encode_option(_k, OPTION_DEFAULTS[_k])]
+DTWPf = z3.Function('DTWP', *([AV, IntS, AV, IntS, BoolS] + _OPT_SORTS + [Val]))
+
+
+def option_terms(options):
+    out = []
+    for k in OPTION_KEYS:
+        out += encode_option(k, options.get(k, OPTION_DEFAULTS[k]))
+    return out
+
+
+def _dtwp(ex, st, s1, s2, only_ub, options):
+    a1, _ = series_parts(ex, st, s1)
+    a2, _ = series_parts(ex, st, s2)
+    n1 = zint(ex.bi_len([s1], {}, None, st))
+    n2 = zint(ex.bi_len([s2], {}, None, st))
+    unknown = set(options) - set(OPTION_KEYS)
+    if unknown:
+        raise Unsupported('unknown DTW options %s' % sorted(unknown))
+    return DTWPf(a1, n1, a2, n2, zbool(truth(only_ub)), *option_terms(options))
+
+
+def _py_dtwp(ex, st, s1, s2, only_ub, options):
+    """Concrete oracle for replay: the real dtw.distance (pure Python, imported in-process from the
+    working tree; it needs neither NumPy nor the C extension)."""
+    import sys
+    import array
+    src = ex.program.repo + '/src'
+    if src not in sys.path:
+        sys.path.insert(0, src)
+    import dtaidistance.dtw as real
+
+    def items(v):
+        return array.array('d', st.heap[v.oid].items)
+    opts = {k: (tuple(v) if isinstance(v, tuple) else v) for k, v in options.items()}
+    try:
+        return float(real.distance(items(s1), items(s2), only_ub=bool(only_ub), **opts))
+    except Exception as e:      # noqa: the exception is the observation
+        return ('exc', repr(e))
+
+
+spec('DTWP', z3=_dtwp, py=_py_dtwp, doc='value returned by the pure-Python dtw.distance')
